@@ -54,7 +54,7 @@ def run(ctx):
               "clause: a non-PD input ends in RuntimeError or a certified-SPD M.")
   ctx.trusted = ["Coq 8.16.1 kernel + vm_compute", "model Model/SDML.v", "oracle: scikit-learn graphical lasso (certified per run)",
                  "concavity of logdet (stationary => optimal) not mechanised"]
-  ok = ctx.build_property()
+  ok = ctx.build_property(gen_needed=['Src_sdml'])
   terms, recs = [], []
   n = 60 if thorough else 14
   import json as _json, os as _os
